@@ -73,6 +73,10 @@ type verifPCConfig struct {
 	FieldPaths       []string
 	Sync, Finalize   *verifHook
 	Customize        hooks.Hook // nil: the controller has no customize hook
+	HooksViaService  bool       // the webhooks are given as a service reference + path instead of a url
+	// KeepConstructorInformers: do not swap snapshot listers in; the harness fills
+	// the stub informers the REAL constructor subscribed to (stub.Stubs(), by GVR)
+	KeepConstructorInformers bool
 }
 
 type verifPC struct {
@@ -101,7 +105,13 @@ func verifNewPC(w *env.World, cfg verifPCConfig) *verifPC {
 	dynamicinformer.VerifNewLister = stub.NewLister
 	tr := true
 	hookURL := "http://hook.ns/sync"
-	goodHook := func() *v1alpha1.Hook { return &v1alpha1.Hook{Webhook: &v1alpha1.Webhook{URL: &hookURL}} }
+	hookPath := "/sync"
+	goodHook := func() *v1alpha1.Hook {
+		if cfg.HooksViaService {
+			return &v1alpha1.Hook{Webhook: &v1alpha1.Webhook{Path: &hookPath, Service: &v1alpha1.ServiceReference{Name: "hook", Namespace: "ns"}}}
+		}
+		return &v1alpha1.Hook{Webhook: &v1alpha1.Webhook{URL: &hookURL}}
+	}
 	cc := &v1alpha1.CompositeController{}
 	cc.Name = "cc"
 	if cfg.GenerateSelector {
@@ -153,7 +163,9 @@ func verifNewPC(w *env.World, cfg verifPCConfig) *verifPC {
 	}
 	pc.queue = q
 	p := &verifPC{parentController: pc, W: w, Queue: q, Recorder: rec, Cfg: cfg}
-	p.Snapshot(nil, nil, nil)
+	if !cfg.KeepConstructorInformers {
+		p.Snapshot(nil, nil, nil)
+	}
 	return p
 }
 
@@ -167,7 +179,13 @@ func verifGVR(r *dynamicdiscovery.APIResource) schema.GroupVersionResource {
 func (p *verifPC) Snapshot(parents []*unstructured.Unstructured, children map[string][]*unstructured.Unstructured, revisions []*v1alpha1.ControllerRevision) {
 	p.parentInformer = dynamicinformer.VerifNewResourceInformer(env.NewLister(parents...))
 	for _, c := range p.Cfg.Children {
-		p.childInformers.Set(verifGVR(c.Res), dynamicinformer.VerifNewResourceInformer(env.NewLister(children[c.Res.Name]...)))
+		// a list keyed "resource@apiVersion" wins over one keyed by the resource
+		// name alone (two served versions of one kind have a cache each)
+		list, versioned := children[c.Res.Name+"@"+c.Res.APIVersion]
+		if !versioned {
+			list = children[c.Res.Name]
+		}
+		p.childInformers.Set(verifGVR(c.Res), dynamicinformer.VerifNewResourceInformer(env.NewLister(list...)))
 	}
 	p.revisionLister = &env.RevLister{Items: revisions}
 }
